@@ -341,3 +341,36 @@ def run_dviews(case):
     except Exception as ex:
         rec["out"] = type(ex).__name__
     return rec
+
+
+def run_factory(case):
+    from corankco.algorithms.algorithm_choice import Algorithm, get_algorithm
+    rec = dict(case)
+    rec.update(kind="factory", out="", all=[], compat=[], cls="", fresh=0, relevant=[], params=0)
+    try:
+        rec["all"] = [a.name for a in Algorithm.get_all()]
+        rec["compat"] = [a.name for a in Algorithm.get_all_compatible_with_any_scoring_scheme()]
+        kind = Algorithm[case["name"]]
+        a1 = get_algorithm(kind) if case["none"] else get_algorithm(kind, {})
+        a2 = get_algorithm(kind)
+        rec["cls"] = type(a1).__name__
+        rec["fresh"] = 1 if a1 is not a2 else 0
+        for B, T, unit in case["schemes"]:
+            ss = core.build_scheme(B, T, unit)
+            rec["relevant"].append(1 if a1.is_scoring_scheme_relevant_when_incomplete_rankings(ss) is True else 0)
+        # parameters reach the constructor
+        ok = 1
+        if case["name"] == "PARCONS":
+            p = get_algorithm(kind, {"bound_for_exact": 7})
+            ok = 1 if getattr(p, "_bound_for_exact", None) == 7 else 0
+        elif case["name"] == "EXACT":
+            p = get_algorithm(kind, {"optimize": False})
+            ok = 1 if type(p).__name__ == "ExactAlgorithm" else 0
+        elif case["name"] == "BORDACOUNT":
+            p = get_algorithm(kind, {"use_bucket_id": True})
+            ok = 1 if type(p).__name__ == "BordaCount" else 0
+        rec["params"] = ok
+        rec["out"] = "ok"
+    except Exception as ex:
+        rec["out"] = type(ex).__name__
+    return rec
